@@ -98,6 +98,10 @@ def gen_cases(ctx):
         yield {"kind": "animation_solver", "length": rng.choice([6, 12, 25]), "seed": rng.randrange(2**31),
                "rule": ["random", "most_work_remaining", "random"][i % 3],
                "chooser": ["random", "first"][i % 2], "instance": {"cls": "animation"}}
+    for i in range(ctx.scale(10, 400)):
+        # one partial-chart plotter object draws several schedules one after the other
+        inst = gen.gen_instance(rng, rng.choice(["classic", "irregular", "flexible", "recirc"]), max_jobs=4, max_machines=3)
+        yield {"kind": "plotter_reuse", "instance": inst, "seed": rng.randrange(2**31)}
     for i in range(ctx.scale(6, 300)):
         # an environment renders episode after episode
         yield {"kind": "animation_env_episodes", "length": rng.choice([5, 9, 14]),
@@ -532,6 +536,32 @@ def run_two_step(ctx, case):
     ctx.note_case(case, True, fingerprint=f"two:{n}:{case['entry']}:{case['seed']}")
 
 
+def run_plotter_reuse(ctx, case):
+    import matplotlib.pyplot as plt
+    from job_shop_lib.visualization import get_partial_gantt_chart_plotter
+    rng = random.Random(case["seed"])
+    plotter = get_partial_gantt_chart_plotter()
+    runs = []
+    for _ in range(3):
+        run = Run(case["instance"])
+        for _ in range(rng.randint(1, run.r.num_ops)):
+            o, m = run.choose(rng, "random_ready")
+            run.dispatch(o, m)
+        runs.append(run)
+    runs.sort(key=lambda x: -x.r.makespan())      # the later charts have the smaller makespans
+    for k, run in enumerate(runs):
+        r = run.r
+        fig = plotter(run.d.schedule, None, None, None)
+        want = [(r.machine_of[o], r.start[o], r.end[o], r.op_job[o]) for o in r.start]
+        try:
+            check_chart(ctx, run.d.schedule, fig.axes[0], want, None, None,
+                        f"chart {k + 1} drawn by one plotter object")
+        finally:
+            plt.close(fig)
+    ctx.count("plotter_objects_reused")
+    ctx.note_case(case, True, fingerprint="plotter-reuse:%s" % case["seed"])
+
+
 def run_animation_solver(ctx, case):
     """create_gantt_chart_gif(instance, solver=...): the frames show ONE run of the solver, frame
     by frame (each frame adds one operation to the previous one), and the axis limit handed to
@@ -627,4 +657,5 @@ def run_animation_env_episodes(ctx, case):
 def run_case(ctx, case):
     {"chart": run_chart, "animation": run_animation, "animation_real": run_animation_real,
      "animation_two_step": run_two_step, "animation_solver": run_animation_solver,
-     "animation_env_episodes": run_animation_env_episodes}[case["kind"]](ctx, case)
+     "animation_env_episodes": run_animation_env_episodes,
+     "plotter_reuse": run_plotter_reuse}[case["kind"]](ctx, case)
